@@ -244,10 +244,23 @@ def _success_edges_from(body, start_local):
     # tracked: local -> (kind, ok_value) ; for bool ok_value in {0,1}; for enums the discriminant of success
     start_ok = 1 if kind == "bool" else RESULT_OK[kind]
     tracked = {dest["l"]: (kind, start_ok)}
+    tuple_fields = {}
     discr_of = {}  # local holding discriminant -> ok discriminant value
     work = [dest["l"]]
     seen = set()
-    while work:
+    while True:
+        if not work:
+            # components of in-place tuples read back after every producer was seen
+            for b2 in cfg.reach:
+                for s in body.blocks[b2]["stmts"]:
+                    if s["k"] == "assign" and s["rv"]["k"] == "use" and not s["place"].get("p") and op_place(s["rv"]["op"]) is not None:
+                        sp2 = op_place(s["rv"]["op"])
+                        pj = sp2.get("p") or []
+                        if len(pj) == 1 and pj[0]["k"] == "field" and (sp2["l"], pj[0]["i"]) in tuple_fields and s["place"]["l"] not in tracked:
+                            tracked[s["place"]["l"]] = tuple_fields[(sp2["l"], pj[0]["i"])]
+                            work.append(s["place"]["l"])
+            if not work:
+                break
         l = work.pop()
         if l in seen:
             continue
@@ -263,6 +276,17 @@ def _success_edges_from(body, start_local):
                 if rv["k"] == "use" and op_local(rv["op"]) == l and not dst.get("p"):
                     tracked[dst["l"]] = (kind, okv)
                     work.append(dst["l"])
+                elif rv["k"] == "aggregate" and rv.get("agg") == "tuple" and not dst.get("p") and any(op_local(o) == l and not (op_place(o) or {}).get("p") for o in rv["ops"]):
+                    # `match (a, flag) { .. }`: the value travels as a component of a tuple built in place
+                    for i2, o2 in enumerate(rv["ops"]):
+                        if op_local(o2) == l and not (op_place(o2) or {}).get("p"):
+                            tuple_fields[(dst["l"], i2)] = (kind, okv)
+                elif rv["k"] == "use" and op_place(rv["op"]) is not None and not dst.get("p"):
+                    sp2 = op_place(rv["op"])
+                    pj = sp2.get("p") or []
+                    if len(pj) == 1 and pj[0]["k"] == "field" and (sp2["l"], pj[0]["i"]) in tuple_fields and tuple_fields[(sp2["l"], pj[0]["i"])] == (kind, okv) and dst["l"] not in tracked:
+                        tracked[dst["l"]] = (kind, okv)
+                        work.append(dst["l"])
                 elif rv["k"] == "discr" and not rv["place"].get("p") and rv["place"]["l"] == l and not dst.get("p"):
                     discr_of[dst["l"]] = okv
                 elif rv["k"] == "unop" and rv["op"] == "Not" and op_local(rv["a"]) == l and kind == "bool" and not dst.get("p"):
@@ -292,9 +316,20 @@ def _success_edges_from(body, start_local):
                     work.append(d2)
             if tm["k"] == "switch":
                 dl = op_local(tm["discr"])
-                if dl is None:
+                tf = None
+                if dl is None and op_place(tm["discr"]) is not None:
+                    # `switch (_t.1)` on a component of an in-place tuple
+                    dp = op_place(tm["discr"])
+                    pj = dp.get("p") or []
+                    if len(pj) == 1 and pj[0]["k"] == "field":
+                        tf = tuple_fields.get((dp["l"], pj[0]["i"]))
+                if dl is None and tf is None:
                     continue
-                if dl in discr_of and dl not in tracked:
+                if tf is not None:
+                    if tf != (kind, okv) or kind != "bool":
+                        continue
+                    okd = okv
+                elif dl in discr_of and dl not in tracked:
                     okd = discr_of[dl]
                 elif dl == l and kind == "bool":
                     okd = okv
@@ -310,7 +345,7 @@ def _success_edges_from(body, start_local):
                         out.err_edges.add(e)
                 # otherwise edge
                 e = ("e", b2, nvals)
-                if kind == "bool" or (dl in discr_of):
+                if kind == "bool" or (dl is not None and dl in discr_of):
                     # otherwise covers all values not listed
                     if okd in tm["values"]:
                         # otherwise = some failure value (or unreachable)
@@ -383,7 +418,7 @@ def propagates_error(body, bi_call):
         succs = cfg.succ.get(sb, [])
         if k < len(succs):
             targets.append(succs[k])
-    reach = cfg.reachable_from(targets)
+    reach = feasible_reach(body, targets)
     sites = [(k, bi) for (k, bi, _i) in result_return_sites(body) if bi in reach]
     bad = [(k, bi) for (k, bi) in sites if k not in ("err", "residual")]
     if not sites:
@@ -600,6 +635,90 @@ def deep_root_through_try(body, op_or_place, depth=0):
     if d and d[0] == "call" and callee_is(d[2], "Try::branch", "ops::Try>::branch") and d[2]["args"] and op_place(d[2]["args"][0]) is not None:
         return deep_root_through_try(body, d[2]["args"][0], depth + 1)
     return r
+
+
+_VARIANT_DISCR = {"Ok": 0, "Err": 1, "None": 0, "Some": 1, "Continue": 0, "Break": 1}
+
+
+def feasible_reach(body, starts, avoid_blocks=(), avoid_edges=(), limit=20000):
+    """Blocks reachable from `starts` when the variant of Result/Option/ControlFlow locals is tracked along the
+    path: `_r = Err(..)` / `from_residual` / `Ok(..)` set it, moves carry it, `Try::branch` maps it, and a switch on
+    the discriminant of a local whose variant is known follows only the matching edge.  This removes the
+    infeasible "helper returned Err, caller's `?` continues" paths that splicing a Result-returning helper creates.
+    Falls back to plain reachability when the state space exceeds `limit` (a superset, hence still sound)."""
+    cfg = body.cfg
+    du = defuse(body)
+    avoid_blocks = set(avoid_blocks)
+    avoid_edges = set(avoid_edges)
+
+    def step_block(bi, facts):
+        f = dict(facts)
+        for s in body.blocks[bi]["stmts"]:
+            if s["k"] != "assign":
+                continue
+            dst = s["place"]
+            rv = s["rv"]
+            if rv["k"] in ("ref", "rawptr") and rv.get("mut"):
+                f.pop(rv["place"]["l"], None)
+            if dst.get("p"):
+                f.pop(dst["l"], None)
+                continue
+            v = None
+            if rv["k"] == "aggregate" and rv.get("agg") == "adt" and rv.get("variant") in _VARIANT_DISCR:
+                v = rv["variant"]
+            elif rv["k"] == "use" and op_local(rv["op"]) is not None:
+                v = f.get(op_local(rv["op"]))
+            f.pop(dst["l"], None)
+            if v is not None:
+                f[dst["l"]] = v
+        return f
+
+    seen = set()
+    out = set()
+    work = [(b, frozenset()) for b in starts]
+    while work:
+        bi, facts = work.pop()
+        if bi in avoid_blocks or bi not in cfg.reach:
+            continue
+        key = (bi, facts)
+        if key in seen:
+            continue
+        seen.add(key)
+        if len(seen) > limit:
+            return cfg.reachable_from(list(starts), avoid_blocks=avoid_blocks, avoid_edges=avoid_edges)
+        out.add(bi)
+        f = step_block(bi, facts)
+        t = body.blocks[bi]["term"]
+        succs = cfg.succ.get(bi, [])
+        allowed = list(range(len(succs)))
+        if t["k"] == "call" and not t["dest"].get("p"):
+            d = t["dest"]["l"]
+            v = None
+            if callee_is(t, "FromResidual>::from_residual", "from_residual"):
+                k = _ty_kind(body.local_ty(d))
+                v = "Err" if k == "result" else "None" if k == "option" else None
+            elif callee_is(t, "Try::branch", "ops::Try>::branch") and t["args"] and op_local(t["args"][0]) is not None:
+                av = f.get(op_local(t["args"][0]))
+                v = "Continue" if av in ("Ok", "Some") else "Break" if av in ("Err", "None") else None
+            f.pop(d, None)
+            if v is not None:
+                f[d] = v
+        elif t["k"] == "switch":
+            dl = op_local(t["discr"])
+            dd = du.single_def(dl) if dl is not None else None
+            if dd and dd[0] == "stmt" and dd[3]["rv"]["k"] == "discr" and not dd[3]["rv"]["place"].get("p"):
+                v = f.get(dd[3]["rv"]["place"]["l"])
+                if v is not None:
+                    want = _VARIANT_DISCR[v]
+                    if want in t["values"]:
+                        allowed = [t["values"].index(want)]
+                    else:
+                        allowed = [len(t["values"])]
+        nf = frozenset(f.items())
+        for k in allowed:
+            if k < len(succs) and ("e", bi, k) not in avoid_edges:
+                work.append((succs[k], nf))
+    return out
 
 
 # ------------------------------------------------------------------ A5 gate functions
